@@ -314,6 +314,78 @@ func TestBounded_C06(t *testing.T) {
 		bCheckDiff(t, fmt.Sprintf("seed=%d bf=%d nf=%s", seed, bf, nf), b, a, bm, am)
 	}
 	bStat("C06.pairs", pairs)
+	// persisted versions under a store fault: the callback and the cursor interface fail alike
+	// (the n-th Load failing makes both report an error; neither ends early as if complete)
+	fcases := 0
+	for seed := 1; seed <= seeds/4+3; seed++ {
+		r := &bRand{uint64(seed)*0xD6E8FEB86659FD93 + 5}
+		bf := uint(2 + r.intn(3))
+		nf := bFormats[r.intn(2)]
+		st := newBStore("mem://diff-faults")
+		am, bm := map[int]int{}, map[int]int{}
+		for i, n := 0, 10+r.intn(30); i < n; i++ {
+			k := r.intn(64)
+			am[k] = r.intn(3)
+			if r.intn(3) != 0 {
+				bm[k] = am[k] + r.intn(2)
+			}
+		}
+		for i, n := 0, r.intn(8); i < n; i++ {
+			bm[r.intn(64)] = 7
+		}
+		a, err := bBuild(bf, nf, st, am, 0, true)
+		if err != nil {
+			continue
+		}
+		b, err := bBuild(bf, nf, st, bm, 1, true)
+		if err != nil {
+			continue
+		}
+		ra, err1 := a.MakeRoot(bctx)
+		rb, err2 := b.MakeRoot(bctx)
+		if err1 != nil || err2 != nil {
+			continue
+		}
+		want := bModelDiff(am, bm)
+		for n := 1; n <= 24; n++ {
+			open := func() (*Mast, *Mast, bool) {
+				st.reset()
+				x, e1 := ra.LoadMast(bctx, bCfg(st, nil))
+				y, e2 := rb.LoadMast(bctx, bCfg(st, nil))
+				return x, y, e1 == nil && e2 == nil
+			}
+			oldT, newT, ok := open()
+			if !ok {
+				break
+			}
+			st.reset()
+			st.failLoad = n
+			itOut, _, itErr := bDiffIter(newT, oldT, 0, 0)
+			st.reset()
+			oldT, newT, ok = open()
+			if !ok {
+				break
+			}
+			st.reset()
+			st.failLoad = n
+			curOut, curErr := bDiffCursor(newT, oldT)
+			st.reset()
+			if itErr == nil && curErr == nil {
+				// the fault was not reached, or it hit a read whose failure is tolerated (the
+				// already-notified lookahead of the node diff): both interfaces must then agree
+				if fmt.Sprint(itOut) != fmt.Sprint(curOut) {
+					bViolation(t, "C06", "fault-disagree", "seed=%d bf=%d nf=%s the %d-th store Load failing: both interfaces finish without error but report different differences: %v vs %v", seed, bf, nf, n, itOut, curOut)
+				}
+				continue
+			}
+			fcases++
+			desc := fmt.Sprintf("seed=%d bf=%d nf=%s old %s\nnew %s\nthe %d-th store Load failing", seed, bf, nf, bModelString(am), bModelString(bm), n)
+			if (itErr == nil) != (curErr == nil) {
+				bViolation(t, "C06", "fault-disagree", "%s\nDiffIter: %d differences, err=%v; cursor: %d differences, err=%v (the full diff has %d)", desc, len(itOut), itErr, len(curOut), curErr, len(want))
+			}
+		}
+	}
+	bStat("C06.fault_cases", fcases)
 }
 
 // ---------------------------------------------------------------------------------------------
